@@ -25,9 +25,9 @@ theorem HeapOrd_nil : HeapOrd [] := by
 
 /-- The loop of `AveragePerSecond` removes exactly the entries outside the window. -/
 theorem expire_spec (now h : Nat) (k : Nat) (a : List Entry) (total : Nat)
-    (hk : a.length ≤ k) (ho : HeapOrd a) (ht : total = counts a) :
+    (hk : a.length ≤ k) (ho : HeapOrd a) (ht : total = counts a % W) :
     (expire now h k a total).1.Perm (a.filter (inWindow now h)) ∧ HeapOrd (expire now h k a total).1 ∧
-      (expire now h k a total).2 = counts (expire now h k a total).1 := by
+      (expire now h k a total).2 = counts (expire now h k a total).1 % W := by
   induction k generalizing a total with
   | zero =>
     have : a = [] := List.eq_nil_of_length_eq_zero (by omega)
@@ -56,7 +56,7 @@ theorem expire_spec (now h : Nat) (k : Nat) (a : List Entry) (total : Nat)
           exact (heapPush_perm a' e).trans h1.symm
         · rw [counts_perm (heapPush_perm a' e), counts_cons, ht, hc]
       · simp only [hw, Bool.false_eq_true, if_false]
-        obtain ⟨r1, r2, r3⟩ := ih a' (total - e.count) (by omega) ho' (by omega)
+        obtain ⟨r1, r2, r3⟩ := ih a' (wsub total e.count) (by omega) ho' (by rw [ht, hc, wsub_counts])
         refine ⟨?_, r2, r3⟩
         have h1 : (a.filter (inWindow now h)).Perm ((e :: a').filter (inWindow now h)) := hperm.filter _
         have h2 : (e :: a').filter (inWindow now h) = a'.filter (inWindow now h) := by
@@ -69,7 +69,7 @@ structure Rel (s : St) (sp : Spec) : Prop where
   now : s.now = sp.now
   perm : s.heap.Perm sp.live
   ord : HeapOrd s.heap
-  total : s.total = counts s.heap
+  total : s.total = counts s.heap % W
 
 theorem rel_init : Rel init specInit :=
   ⟨rfl, List.Perm.refl _, HeapOrd_nil, rfl⟩
@@ -83,12 +83,11 @@ theorem step_refines {s : St} {sp : Spec} (h : Rel s sp) (op : Op) :
     rw [h.now]
   | add c =>
     refine ⟨rfl, h.now, ?_, heapPush_ord _ _ h.ord, ?_⟩
-    · show (heapPush s.heap { ts := s.now, count := c }).Perm (sp.live ++ [{ ts := sp.now, count := c }])
+    · show (heapPush s.heap { ts := s.now, count := c % W }).Perm (sp.live ++ [{ ts := sp.now, count := c % W }])
       rw [h.now]
       exact (heapPush_perm _ _).trans ((h.perm.cons _).trans (List.perm_append_singleton _ _).symm)
-    · show s.total + c = counts (heapPush s.heap { ts := s.now, count := c })
-      rw [counts_perm (heapPush_perm _ _), counts_cons, h.total]
-      simp; omega
+    · show wadd s.total (c % W) = counts (heapPush s.heap { ts := s.now, count := c % W }) % W
+      rw [counts_perm (heapPush_perm _ _), counts_cons, h.total, wadd_counts]
   | clear =>
     exact ⟨rfl, h.now, List.Perm.refl _, HeapOrd_nil, rfl⟩
   | avg hh =>
@@ -96,7 +95,7 @@ theorem step_refines {s : St} {sp : Spec} (h : Rel s sp) (op : Op) :
     have hf : (s.heap.filter (inWindow s.now hh)).Perm (sp.live.filter (inWindow sp.now hh)) := by
       rw [h.now]; exact h.perm.filter _
     refine ⟨?_, h.now, r1.trans hf, r2, r3⟩
-    show Out.total (expire s.now hh s.heap.length s.heap s.total).2 hh = Out.total (counts (sp.live.filter (inWindow sp.now hh))) hh
+    show Out.total (expire s.now hh s.heap.length s.heap s.total).2 hh = Out.total (counts (sp.live.filter (inWindow sp.now hh)) % W) hh
     rw [r3, counts_perm (r1.trans hf)]
 
 theorem run_refines (s : St) (sp : Spec) (ops : List Op) (h : Rel s sp) :
@@ -120,7 +119,7 @@ inside the window now -/
 /-- Clock and the entries added since the last `Clear`, read off the history alone. -/
 def track (p : Nat × List Entry) : Op → Nat × List Entry
   | .tick d => (p.1 + d, p.2)
-  | .add c => (p.1, p.2 ++ [{ ts := p.1, count := c }])
+  | .add c => (p.1, p.2 ++ [{ ts := p.1, count := c % W }])
   | .clear => (p.1, [])
   | .avg _ => p
 
